@@ -6,7 +6,8 @@ import xml.etree.ElementTree as ET
 from harness.gallina import gbool, glist, gnat, gstr
 
 ID = "C12"
-COQ_TARGETS = ["Descr.vo", "DescrProofs.vo", "DescrProofs2.vo", "DescrProofs3.vo", "CorrC12.vo", "Props/C12.vo"]
+COQ_TARGETS = ["Descr.vo", "DescrProofs.vo", "DescrProofs2.vo", "DescrProofs3.vo", "TS.vo", "TSProofs.vo", "DescrTS.vo",
+               "DescrTSProofs.vo", "CorrC12.vo", "Props/C12.vo"]
 PROPS_FILE = "Props/C12.v"
 CORR_IMPORTS = "Base Descr CorrC12"
 OPEN_SCOPES = ["string_scope", "list_scope"]
